@@ -167,7 +167,7 @@ func runC19(c *Ctx) {
 		names := w.newNames("m", r.Intn(3))
 		switch x := r.Intn(10); {
 		case x < 4 || len(w.objs) == 0:
-			cut := r.Intn(len(p) + 1)
+			cut := gen.Cut(r, p)
 			if r.Chance(1, 6) {
 				cut = 0 // the empty prefix
 			}
@@ -192,7 +192,7 @@ func runC19(c *Ctx) {
 				p = par.from // stay below the parent so that the concatenated pattern is well-formed
 			}
 			rest := p[len(par.pattern):]
-			cut := r.Intn(len(rest) + 1)
+			cut := gen.Cut(r, rest)
 			if r.Bool() {
 				o := &facadeObj{kind: "prefix", from: p, pattern: par.pattern + rest[:cut], mws: append(append([]string{}, names...), par.mws...)}
 				o.pA = par.pA.Prefix(rest[:cut], w.mws(w.envA, names)...)
@@ -399,13 +399,13 @@ func init() {
 	Register(&Engine{
 		ID:      "C19",
 		Anchors: []string{"router.go:Prefix", "router.go:Resource", "router.go:Clean", "node.go:clean", "router.go:Remove", "router.go:URL"},
-		Cases:   func(t string) int { return map[string]int{"quick": 600, "thorough": 40000}[t] },
+		Cases:   func(t string) int { return map[string]int{"quick": 4000, "thorough": 80000}[t] },
 		Run:     runC19,
 		Rule: "case = random facade program (10-30 steps: Prefix / nested Prefix / Resource creation with middlewares, prefixes cut anywhere incl. empty and inside a parameter token; Get/Post/Put/Delete/Patch/Any/Handle; Remove; Clean; URL) executed on router A and its translation into Router.Handle/Remove/URL calls with concatenated patterns and middleware lists on router B; after every step Routes(), a probe battery per pool pattern x 5 methods (status, paired handler, params, executed middleware chain, Allow), URL results and panics must agree; " +
 			"non-trivial (distinct by program text) = every program",
 		Floors: func(t string) map[string]int64 {
 			if t == "quick" {
-				return map[string]int64{"facade_registration_accepted": 2000, "prefix_clean": 300, "resource_clean": 100, "facade_url": 500, "program_with_nested_facade": 200, "facade_remove": 500}
+				return map[string]int64{"facade_registration_accepted": 4000, "prefix_clean": 800, "resource_clean": 300, "facade_url": 1200, "program_with_nested_facade": 500, "facade_remove": 1500}
 			}
 			return map[string]int64{"facade_registration_accepted": 150000, "prefix_clean": 20000}
 		},
